@@ -19,6 +19,7 @@ type Thread struct {
 	done    bool
 	exited  bool
 	enabled func() bool // nil = enabled
+	daemon  bool        // environment thread (timer): never counts as a blocked participant
 }
 
 type mutexState struct {
@@ -109,7 +110,7 @@ func (in *Interp) schedule(curCan bool) {
 	if len(en) == 0 {
 		alive := 0
 		for _, t := range in.threads {
-			if !t.done {
+			if !t.done && !t.daemon {
 				alive++
 			}
 		}
@@ -188,6 +189,13 @@ func (in *Interp) blockUntil(pred func() bool) {
 		in.schedule(false)
 		in.cur.enabled = nil
 	}
+}
+
+func (in *Interp) spawnDaemon(body func()) {
+	t := in.newThread()
+	t.daemon = true
+	in.live.Add(1)
+	go in.threadMain(t, body)
 }
 
 func (in *Interp) spawn(body func()) {
